@@ -234,6 +234,32 @@ proofs! {
     core::mem::forget((x, untouched, set_empty, cleared, parts_empty));
 }
 
+// the one route of the above that *replaces* an existing variant list, on its own (small enough to
+// stay decidable when the code under it changes shape): exactly one variant, then set_variants(&[])
+[sortv, boxed, tovec] fn c12_route_set_empty_over_one() {
+    let (x, _m) = sym::langid_shape(false, true, 1);
+    let untouched = LanguageIdentifier::from_raw_parts_unchecked(x.language, x.script, x.region, None);
+    let mut set_empty = x.clone();
+    set_empty.set_variants(&[]);
+    cover!(x.variants().len() == 1);
+    assert!(set_empty == untouched, "set_variants(&[]) over existing variants == never had variants");
+    assert!(set_empty.cmp(&untouched) == Ordering::Equal);
+    assert!(fnv(&set_empty) == fnv(&untouched), "equal values hash equally");
+    core::mem::forget((x, untouched, set_empty));
+}
+
+// near misses of the canonical text on one concrete identifier (enumerated, not quantified: a cheap
+// guard that stays decidable whatever the comparison is rewritten to; the quantified statement is
+// c12_langid_eq_str)
+[string, push, sortv, boxed] fn c12_eq_str_near_misses() {
+    let li = LanguageIdentifier::from_bytes(b"en-US").unwrap();
+    cover!(li == "en-US");
+    assert!(li == "en-US");
+    assert!(!(li == "en-US-valencia") && !(li == "en-US-") && !(li == "en") && !(li == "en-U"), "longer / shorter strings are not equal");
+    assert!(!(li == "EN-us") && !(li == "en_US") && !(li == " en-US") && !(li == ""), "non-canonical spellings are not equal");
+    core::mem::forget(li);
+}
+
 // x == y  <=>  x.to_string() == y.to_string()   (real Display + core::fmt on both sides)
 [string] fn c12_langid_eq_iff_string_eq() {
     let (x, mx) = sym::any_langid(1);
